@@ -27,8 +27,8 @@ RULE = ("Hypothesis cases: n clients in {1,2}, ascii or binary payloads, client/
         "small set, 1..60 steps, each step either 'queue 1-3 packets (transmit) / messages on stack X for peer Y' "
         "(size classes 1 B .. 300 KiB, unique ascii tag + patterned body) or 'call service method M of stack X once' "
         "(20 server / 18 client methods), in a third of the cases also 'queue a packet on the server stack for an address that is not "
-        "connected' (refused with one ValueError, must not hold up the packets behind it); then a deterministic drain (serviceAll rounds, half-close, read to "
-        "EOF). Checked after every step and at the end: per connection and direction, concatenation of the "
+        "connected' (refused with one ValueError, must not hold up the packets behind it); then a deterministic drain (serviceAll rounds, in a third of the cases the clients' "
+        "transmit side is driven by serviceAllTxOnce only; half-close, read to EOF). Checked after every step and at the end: per connection and direction, concatenation of the "
         "packets appended to .rxPkts == (prefix of) concatenation of the packets appended to the peer's .txPkts. "
         "non-trivial = some service call found >= 2 packets queued on its stack and both directions carried "
         "data; distinct = the generated case")
@@ -381,7 +381,12 @@ class Session(object):
         else:
             self.call(srv, "serviceAll")
         for c in self.clients:
-            self.call(c, "serviceAll")
+            if self.cfg.get("once"):
+                # an application that drives the transmit side one transmission at a time (the ...Once variants only)
+                for name in ("serviceConnect", "serviceAllRx", "serviceAllTxOnce"):
+                    self.call(c, name)
+            else:
+                self.call(c, "serviceAll")
 
     def pending(self):
         """user-space data not yet handed to the kernel: {label: (amount, socket or None)}"""
@@ -644,6 +649,7 @@ def _cases(step):
         "bufs": st.integers(0, len(BUFS) - 1),
         "parting": st.sampled_from([False, True]),
         "framed": st.sampled_from([False, False, True]),
+        "once": st.sampled_from([False, False, True]),
         "steps": st.one_of(st.lists(step, min_size=1, max_size=60), st.lists(step, min_size=12, max_size=60),
                            st.lists(step, min_size=12, max_size=60)),
     })
@@ -651,7 +657,7 @@ def _cases(step):
 
 def to_case(v):
     return {"nclients": v["nclients"], "binary": v["binary"], "bufs": v["bufs"], "parting": bool(v.get("parting")),
-            "framed": bool(v.get("framed")), "steps": [list(s) for s in v["steps"]]}
+            "framed": bool(v.get("framed")), "once": bool(v.get("once")), "steps": [list(s) for s in v["steps"]]}
 
 
 def plan(tier):
@@ -689,6 +695,8 @@ def work(shard, seed, tier):
             classes.append("stray-destination-queued")
         if info.get("parting"):
             classes.append("parting-shot-data-and-eof-in-one-pass")
+        if case.get("once"):
+            classes.append("client-tx-driven-by-once-calls")
         if both:
             classes.append("both-directions")
         if info["burst"]:
